@@ -305,6 +305,8 @@ fn mode_twin(ctx: &Ctx, rng: &mut Rng, is128: bool, st: &mut St, case: u64) {
     let pad = rng.below(40) as usize;
     let variant = rng.below(3);
     let clock0 = 1 + rng.below(2000) as usize; // mostly not a multiple of 4
+    // main loop in uncontended or in contended RAM (there a halted CPU's M1 cycles are stretched)
+    let main_at: u16 = *rng.pick(&[0x8000u16, 0x8000, 0x6000, 0x5CCB, 0x7FFE]);
     let build = || {
         let mut m = Machine::new(Cfg::of(is128));
         m.poke_bytes(0xBE00, &[0xBD; 257]);
@@ -317,9 +319,9 @@ fn mode_twin(ctx: &Ctx, rng: &mut Rng, is128: bool, st: &mut St, case: u64) {
             1 => vec![0x00, 0x76, 0x23, 0x18, 0xFB], // NOP; HALT; INC HL; JR
             _ => vec![0x34, 0x76, 0xE3, 0x18, 0xFB], // INC (HL); HALT; EX (SP),HL; JR
         };
-        m.poke_bytes(0x8000, &main);
+        m.poke_bytes(main_at, &main);
         let mut rf = RegFile::default();
-        rf.pc = 0x8000;
+        rf.pc = main_at;
         rf.sp = 0xBD00;
         rf.i = 0xBE;
         rf.im = 2;
@@ -365,7 +367,7 @@ fn mode_twin(ctx: &Ctx, rng: &mut Rng, is128: bool, st: &mut St, case: u64) {
         if got != refs[frame - 1] {
             ctx.violation(
                 &format!("frame-accounting:mode-dependent:{}", if use_max { "max" } else { "framecount-n" }),
-                &format!("{}K: after {} frames (clock, pc, r, iy, halted) = {:?} when run {} frames per call in {} mode, but {:?} one frame per call (main loop variant {}, start clock {})", if is128 { 128 } else { 48 }, frame, got, n, if use_max { "Max" } else { "FrameCount(n)" }, refs[frame - 1], variant, clock0),
+                &format!("{}K: after {} frames (clock, pc, r, iy, halted) = {:?} when run {} frames per call in {} mode, but {:?} one frame per call (main loop variant {} at {:04x}, start clock {})", if is128 { 128 } else { 48 }, frame, got, n, if use_max { "Max" } else { "FrameCount(n)" }, refs[frame - 1], variant, main_at, clock0),
                 jobj! {"monitor"=>"E","case"=>case,"is128"=>is128,"variant"=>variant,"clock0"=>clock0,"pad"=>pad},
             );
             return;
